@@ -108,6 +108,7 @@ func c06Body(r *vlib.Run) int {
 		}
 	})
 	c06Provoke(r)
+	c06Systematic(r)
 	c06Merge(r)
 	return len(plans) * runsPer / 2
 }
@@ -315,6 +316,81 @@ func c06Run(r *vlib.Run, cf *c06Fleet, rng *rand.Rand, pi, run int, w2 bool, pro
 		what = "exit-status"
 	}
 	r.Violation(what, detail)
+}
+
+// c06Systematic: MaxConcurrentCats=1 and files ending in a long tail of lines
+// of other tables. The queued file registers within microseconds after its
+// predecessor was closed, while the idle aggregator looks only every 100 ms, so
+// the recorded early exit needs a microsecond-wide window here: if it occurs in
+// half of the runs or more, it is not the recorded rare interleaving.
+func c06Systematic(r *vlib.Run) {
+	env := []string{"VERIF_TRACE=trace.jsonl"}
+	fl, err := startFleet(r, "c06sys", 1, map[string]interface{}{"MaxConcurrentCats": 1, "MaxConnections": 50}, env, "error")
+	if err != nil {
+		r.Inconclusive("fleet-start")
+		return
+	}
+	defer fl.Stop()
+	runs := r.N(8, 40)
+	short := 0
+	var details []string
+	for run := 0; run < runs; run++ {
+		sub := fmt.Sprintf("sys%d", run)
+		var files []string
+		total := 0
+		for f := 0; f < 3; f++ {
+			var b bytes.Buffer
+			for q := 1; q <= 30; q++ {
+				b.WriteString(c06Line(fmt.Sprintf("f%d", f), 0, q) + "\n")
+				total++
+			}
+			for q := 0; q < 400; q++ {
+				b.WriteString("INFO|1002-071209|1|m.go:1|8|14|7|0.21|471h|MAPREDUCE:OTHER|fid=zz|g=g9|w=1|seq=1\n")
+			}
+			rel := filepath.Join(sub, fmt.Sprintf("t%d.log", f))
+			fl.WriteFile(0, rel, b.Bytes())
+			files = append(files, rel)
+		}
+		out := filepath.Join(fl.Home, fmt.Sprintf("sys-%d.csv", run))
+		query := "from CONS select fid,count($line) group by fid outfile " + out
+		args := append(fl.ClientArgs(), "--logger", "stdout", "--logLevel", "error", "--noColor", "--files", strings.Join(files, ","), "--query", query)
+		res := vlib.RunCmd(vlib.Cmd{Path: r.Bin("dmap"), Args: args, Env: fl.ClientEnv(), Dir: fl.Home, Watchdog: 120 * time.Second})
+		got := 0
+		if b, err := os.ReadFile(out); err == nil {
+			_, rows := mq.ParseCSV(string(b))
+			for _, row := range rows {
+				if len(row) == 2 {
+					c, _ := strconv.Atoi(row[1])
+					got += c
+				}
+			}
+		}
+		os.Remove(out)
+		os.Remove(out + ".query")
+		os.RemoveAll(filepath.Join(fl.Servers[0].Spec.Dir, sub))
+		r.Eval(fmt.Sprintf("systematic|%d", run))
+		if res.TimedOut {
+			r.Inconclusive("dmap-watchdog")
+			continue
+		}
+		if got > total {
+			r.Violation("lines-counted-more-than-once", map[string]interface{}{"scenario": "limit 1, files with foreign tails", "got": got, "want": total})
+			continue
+		}
+		if got < total || res.Hung {
+			short++
+			details = append(details, fmt.Sprintf("run %d: %d of %d lines, hung=%v", run, got, total, res.Hung))
+		}
+	}
+	r.Count("systematic_scenario_runs", runs)
+	r.Count("systematic_scenario_short_runs", short)
+	if short*2 >= runs {
+		r.Violation("files-queued-behind-the-limit-are-left-out-systematically", map[string]interface{}{
+			"scenario": "MaxConcurrentCats=1, 3 files each ending in 400 lines of another table", "short_runs": short, "runs": runs, "runs_detail": details,
+			"note": "the recorded finding c06.agg-early-exit needs a microsecond-wide window in this scenario"})
+	} else if short > 0 {
+		r.Known("c06.agg-early-exit", "server-side aggregator finished before all files of the session were registered and closed; their lines are missing")
+	}
 }
 
 // ---- in-process merge tier
